@@ -1,6 +1,8 @@
 import sys
 import warnings
 
+from copy import deepcopy
+
 import numpy as np
 import pandas as pd
 
@@ -59,6 +61,12 @@ class Call:
 
     def __str__(self):
         return f"{self.__class__.__name__}({self.name})"
+
+    def __deepcopy__(self, memo):
+        # The evaluation environment references modules, which cannot (and need not) be copied.
+        # The copy keeps the lazy call, with the state of its transformations, and is evaluated
+        # again in the term it is placed in.
+        return type(self)(deepcopy(self.call, memo), self.is_response)
 
     def accept(self, visitor):
         """Accept method called by a visitor.
